@@ -138,6 +138,7 @@ class Feat:
         self.empty_symbol = True
         self.eqrel = False
         self.output_edb = False
+        self.bitops = True
         self.__dict__.update(kw)
 
 
@@ -364,7 +365,8 @@ class Gen:
         if ty == FLOAT:
             op = ch.choice(["+", "-", "*", "min", "max", "neg"])
         else:
-            op = ch.choice(["+", "-", "*", "min", "max", "band", "bor", "bxor", "/", "%"] + (["neg"] if ty == NUMBER else []))
+            op = ch.choice(["+", "-", "*", "min", "max"] + (["band", "bor", "bxor"] if feat.bitops else []) + ["/", "%"] +
+                           (["neg"] if ty == NUMBER else []))
         if op == "neg":
             return Fn("neg", [a], ty)
         if op in ("/", "%"):
